@@ -599,8 +599,7 @@ def check_call(ctx, g, op, vds, c, names_ok, inputs_ok, f10_bad, stats, f21_ok=T
             return
         cls = classify(names_ok, inputs_ok, f10_bad, involved, f21=(not f21_ok) and model_agrees)
         # (F33, F18-variable-name-not-identifier and F18-input-field-collision are fixed: no routing)
-        if not inputs_ok:
-            cls = "F18-colliding-input-fields-by-name"     # residual of bec4417: populate_by_name ambiguity
+        # (F18-colliding-input-fields-by-name, the residual of bec4417, is fixed: /repo a4347c6; no routing)
         rep = replay_of(g, op, c)
         if cls:
             run.finding(cls, what, rep)
